@@ -72,7 +72,11 @@ pub(crate) fn format(src: &str, path: &Path) -> String {
     let src_after_indent = apply_indentation_edits(&src_after_spans, &visitor.line_edits);
 
     // Phase 6: Normalize blank lines
-    let src_after_blanks = normalize_blank_lines(&src_after_indent, &visitor.toplevel_start_lines);
+    let src_after_blanks = normalize_blank_lines(
+        &src_after_indent,
+        &visitor.toplevel_start_lines,
+        &vfs_path,
+    );
 
     // Phase 7: Fix type annotation spacing
     let src_after_types = fix_type_annotation_spacing(&src_after_blanks, &vfs_path);
@@ -726,25 +730,33 @@ fn collect_comment_edits(
     }
 }
 
+/// The numbers of the lines whose first byte lies inside a token.
+/// Only string literals can span lines, so these are the continuation
+/// lines of multi-line string literals: their text, including leading
+/// whitespace and blank lines, is part of the string's value.
+fn lines_inside_tokens(src: &str, vfs_path: &crate::parser::vfs::VfsPathBuf) -> FxHashSet<usize> {
+    let (mut token_stream, _) = lex_between(vfs_path, src, 0, src.len());
+
+    let mut lines: FxHashSet<usize> = FxHashSet::default();
+    while let Some(token) = token_stream.pop() {
+        let newlines = token.text.matches('\n').count();
+        for i in 1..=newlines {
+            lines.insert(token.position.line_number + i);
+        }
+    }
+
+    lines
+}
+
 /// Remove indentation edits for lines whose first byte lies inside a
-/// token. Only string literals can span lines, and re-indenting their
-/// continuation lines would change the string's value.
+/// token: re-indenting them would change a string's value.
 fn drop_edits_inside_tokens(
     src: &str,
     vfs_path: &crate::parser::vfs::VfsPathBuf,
     line_edits: &mut Vec<LineEdit>,
 ) {
-    let (mut token_stream, _) = lex_between(vfs_path, src, 0, src.len());
-
-    let mut lines_inside_tokens: FxHashSet<usize> = FxHashSet::default();
-    while let Some(token) = token_stream.pop() {
-        let newlines = token.text.matches('\n').count();
-        for i in 1..=newlines {
-            lines_inside_tokens.insert(token.position.line_number + i);
-        }
-    }
-
-    line_edits.retain(|edit| !lines_inside_tokens.contains(&edit.line_number));
+    let inside = lines_inside_tokens(src, vfs_path);
+    line_edits.retain(|edit| !inside.contains(&edit.line_number));
 }
 
 /// Apply indentation edits to the source while preserving blank lines.
@@ -815,11 +827,20 @@ fn apply_span_edits(src: &str, span_edits: &mut [SpanEdit]) -> String {
 ///
 /// - Before non-import toplevel definitions: exactly one blank line
 /// - Inside blocks: at most one blank line between lines
-fn normalize_blank_lines(src: &str, toplevel_start_lines: &[usize]) -> String {
+fn normalize_blank_lines(
+    src: &str,
+    toplevel_start_lines: &[usize],
+    vfs_path: &crate::parser::vfs::VfsPathBuf,
+) -> String {
     let lines: Vec<&str> = src.lines().collect();
     if lines.is_empty() {
         return src.to_owned();
     }
+
+    // Lines inside a multi-line string literal are never blank lines
+    // of the program, whatever they contain.
+    let inside_tokens = lines_inside_tokens(src, vfs_path);
+    let is_blank = |i: usize| lines[i].trim().is_empty() && !inside_tokens.contains(&i);
 
     let toplevel_lines: FxHashSet<usize> = toplevel_start_lines.iter().copied().collect();
     let mut result = String::with_capacity(src.len());
@@ -829,9 +850,9 @@ fn normalize_blank_lines(src: &str, toplevel_start_lines: &[usize]) -> String {
         let line = lines[i];
 
         // If this line is blank
-        if line.trim().is_empty() {
+        if is_blank(i) {
             // Count consecutive blank lines
-            while i < lines.len() && lines[i].trim().is_empty() {
+            while i < lines.len() && is_blank(i) {
                 i += 1;
             }
 
@@ -853,7 +874,8 @@ fn normalize_blank_lines(src: &str, toplevel_start_lines: &[usize]) -> String {
         // (lines starting with `//`) on the previous line are considered
         // attached to the following item, so no blank line is inserted.
         if i < lines.len()
-            && !lines[i].trim().is_empty()
+            && !is_blank(i)
+            && !inside_tokens.contains(&i)
             && toplevel_lines.contains(&i)
             && !line.trim_start().starts_with("//")
         {
@@ -1250,7 +1272,11 @@ pub(crate) fn verif_format_trace(src: &str, path: &Path) -> VerifFormatTrace {
     texts.push(("spans", src_after_spans.clone()));
     let src_after_indent = apply_indentation_edits(&src_after_spans, &visitor.line_edits);
     texts.push(("indent", src_after_indent.clone()));
-    let src_after_blanks = normalize_blank_lines(&src_after_indent, &visitor.toplevel_start_lines);
+    let src_after_blanks = normalize_blank_lines(
+        &src_after_indent,
+        &visitor.toplevel_start_lines,
+        &vfs_path,
+    );
     texts.push(("blanks", src_after_blanks.clone()));
     let src_after_types = fix_type_annotation_spacing(&src_after_blanks, &vfs_path);
     texts.push(("types", src_after_types.clone()));
